@@ -30,6 +30,9 @@
 (***************************************************************************)
 EXTENDS Encode
 
+CONSTANT OpenParse   \* TRUE: (o1) is open as described; FALSE: unused code with a syntax error MUST fail the run
+                     \* (what DESIGN Appendix B records for the pinned binary)
+
 VARIABLES cfg,             \* the configuration of this run (never changes)
           phase,           \* the phase about to run, "Done" when the process has exited
           exit,            \* exit status, -1 while running
@@ -325,6 +328,7 @@ LoadFail == phase = "Load" /\ LoadError(cfg) /\ Die("Load", 1, "input does not l
 BindExtOk ==
   /\ phase = "BindExt"
   /\ ~BindCertainlyFails(ExtArgs(cfg)) /\ ~HasDup(ExtArgs(cfg))
+  /\ OpenParse \/ ~BindMayFailEagerly(ExtArgs(cfg))
   /\ Go("BindExt", "BindTla") /\ UNCHANGED <<files, val, out, fidx, why>>
 BindExtFail ==
   /\ phase = "BindExt"
@@ -339,6 +343,7 @@ BindExtFailEager ==                                                        \* (o
 BindTlaOk ==
   /\ phase = "BindTla"
   /\ ~BindCertainlyFails(TlaArgs(cfg))
+  /\ OpenParse \/ ~BindMayFailEagerly(TlaArgs(cfg))
   /\ Go("BindTla", "Eval") /\ UNCHANGED <<files, val, out, fidx, why>>
 BindTlaFail ==
   /\ phase = "BindTla"
@@ -525,6 +530,7 @@ FailureIsClean ==
 \* a run that the property says must fail does fail, whichever open choice is taken
 MustFail(c) ==
   \/ UsageError(c) \/ InputUnreadable(c) \/ LoadError(c)
+  \/ (~OpenParse /\ (BindMayFailEagerly(ExtArgs(c)) \/ BindMayFailEagerly(TlaArgs(c))))
   \/ BindCertainlyFails(ExtArgs(c)) \/ HasDup(ExtArgs(c)) \/ BindCertainlyFails(TlaArgs(c))
   \/ RootValue(c).t = "err"
   \/ (c.prog \in FuncProgs /\ (CallError(c.prog, TlaArgs(c)) \/ CallValue(c.prog, TlaArgs(c)).t = "err"))
